@@ -372,6 +372,17 @@ def run_modules(case):
             d = [(a, b) for a, b in zip(l1, l3) if a != b][:3]
             return bad("reproducible-shift", "text depends on unrelated earlier construction: %r" % d,
                        key="irreproducible-shift", cls=cls)
+        # reproducibility 3: the same design elaborated again and again in one process (the tracer's per-class instance numbers
+        # and the DUIDs keep growing: 0,1,2 / 3,4,5 / 6,7,8 ...) - same text every time
+        for rep in range(3):
+            outr = _convert(case, 0)
+            tr = _norm(outr.main_source)
+            if tr != t1:
+                l1, lr = t1.splitlines(), tr.splitlines()
+                d = [(a, b) for a, b in zip(l1, lr) if a != b][:3]
+                return bad("reproducible-repeat", "elaboration #%d of the same design in one process gives another text: %r" % (rep + 3, d),
+                           key="irreproducible-repeat", cls=cls)
+        cls.append("repeated-elaboration-compared")
     return ok(nt=nt, cls=cls, idents=len(allids))
 
 
